@@ -193,10 +193,73 @@ def miri(ctx):
     return res
 
 
+LLVM_BIN = os.path.expanduser("~/.rustup/toolchains/nightly-x86_64-unknown-linux-gnu/lib/rustlib/x86_64-unknown-linux-gnu/bin")
+
+
+def coverage(ctx):
+    """information, not a verdict: line coverage of /repo/src reached by a reduced run of this property's
+    workload, measured with -Cinstrument-coverage (nightly build + the toolchain's own llvm-cov)"""
+    tdir = os.path.join(HARNESS, "target", "cov")
+    env = _env({"RUSTFLAGS": "-Cinstrument-coverage"})
+    binp, err, bs = _build(ctx, "coverage", [], env, tdir)
+    if not binp:
+        return dict(report={"status": "build failed", "detail": err})
+    prof_dir = os.path.join(ctx["work"], "prof")
+    os.makedirs(prof_dir, exist_ok=True)
+    for f in os.listdir(prof_dir):
+        os.remove(os.path.join(prof_dir, f))
+    j = os.path.join(ctx["work"], "cov.journal")
+    scale = {"C01": 2, "C05": 2, "C12": 5, "C13": 5}.get(ctx["pid"], 5)
+    procs = []
+    n = 8
+    for i in range(n):
+        e = _env({"LLVM_PROFILE_FILE": os.path.join(prof_dir, "p-%d-%%p.profraw" % i)})
+        procs.append(subprocess.Popen([binp, "run", ctx["pid"], "--tier", "quick", "--seed", str(ctx["seed"]), "--journal",
+                                       j + str(i), "--scale", str(scale), "--shard", str(i), "--nshards", str(n),
+                                       "--as-gib", "0", "--replay-dir", os.path.join(ctx["work"], "cov-replays")],
+                                      env=e, stdout=subprocess.DEVNULL, stderr=subprocess.DEVNULL))
+    for p in procs:
+        try:
+            p.wait(timeout=3000)
+        except subprocess.TimeoutExpired:
+            p.kill()
+    raws = [os.path.join(prof_dir, f) for f in os.listdir(prof_dir) if f.endswith(".profraw")]
+    if not raws:
+        return dict(report={"status": "no profile written"})
+    merged = os.path.join(prof_dir, "merged.profdata")
+    m = subprocess.run([os.path.join(LLVM_BIN, "llvm-profdata"), "merge", "-sparse", "-o", merged] + raws,
+                       stdout=subprocess.PIPE, stderr=subprocess.STDOUT, text=True)
+    if m.returncode != 0:
+        return dict(report={"status": "profdata merge failed", "detail": m.stdout[-300:]})
+    c = subprocess.run([os.path.join(LLVM_BIN, "llvm-cov"), "export", "-summary-only", "-instr-profile", merged, binp],
+                       stdout=subprocess.PIPE, stderr=subprocess.PIPE, text=True)
+    if c.returncode != 0:
+        return dict(report={"status": "llvm-cov failed", "detail": c.stderr[-300:]})
+    files = {}
+    try:
+        data = json.loads(c.stdout)["data"][0]["files"]
+        for f in data:
+            name = f["filename"]
+            if name.startswith("/repo/src/") and not name.endswith("verif.rs"):
+                ln = f["summary"]["lines"]
+                files[name[len("/repo/src/"):]] = {"lines": ln["count"], "covered": ln["covered"],
+                                                  "percent": round(ln["percent"], 1)}
+    except Exception as ex:
+        return dict(report={"status": "could not read llvm-cov output: %s" % ex})
+    tot = sum(v["lines"] for v in files.values())
+    cov = sum(v["covered"] for v in files.values())
+    return dict(report={"status": "ran", "build_s": round(bs, 1), "scale_percent": scale,
+                        "note": "line counts include the crate's #[test] functions' bodies only if compiled (they are not)",
+                        "total_percent": round(100.0 * cov / max(tot, 1), 1), "files": files})
+
+
+COV = dict(name="coverage_of_repo_src", tiers=("thorough",), fn=coverage)
+
 STAGES = {
     "C12": [
         dict(name="asan", tiers=("thorough",), fn=asan),
         dict(name="valgrind", tiers=("thorough",), fn=valgrind),
+        COV,
     ],
     "C14": [
         dict(name="second_process", tiers=("quick", "thorough"), fn=second_process),
@@ -204,5 +267,8 @@ STAGES = {
         dict(name="asan", tiers=("thorough",), fn=asan),
         dict(name="valgrind", tiers=("thorough",), fn=valgrind),
         dict(name="miri", tiers=("thorough",), fn=miri),
+        COV,
     ],
 }
+for _p in ["C01", "C02", "C03", "C04", "C05", "C06", "C07", "C08", "C09", "C10", "C11", "C13"]:
+    STAGES[_p] = [COV]
